@@ -86,10 +86,16 @@ def alternative_or_next(type_: Union[RDREdge.Alternative, RDREdge.Next],
     """
     new_branch = chained_logic(AND, *conditions)
     current_node = SymbolicExpression._current_parent_()
-    if isinstance(current_node._parent_, (Alternative, Next)):
-        current_node = current_node._parent_
-    elif isinstance(current_node._parent_, ExceptIf) and current_node is current_node._parent_.left:
-        current_node = current_node._parent_
+    # the new branch is attached to the whole rule that the current node heads: the node together with the
+    # refinements and alternatives that were attached to it so far.
+    while True:
+        parent = current_node._parent_
+        if isinstance(parent, (Alternative, Next)) and current_node is parent.left:
+            current_node = parent
+        elif isinstance(parent, ExceptIf) and current_node is parent.left:
+            current_node = parent
+        else:
+            break
     prev_parent = current_node._parent_
     current_node._parent_ = None
     if type_ == RDREdge.Alternative:
